@@ -17,9 +17,42 @@ def gen_consts(v):
             ('ROBE_HEADER', 'sizeof(ola::plugin::usbpro::BaseRobeWidget::message_header)'),
             ('OPC_HEADER_SIZE', 'ola::plugin::openpixelcontrol::OPC_HEADER_SIZE'),
             ('OPC_FRAME_SIZE', 'ola::plugin::openpixelcontrol::OPC_FRAME_SIZE')]
-    return v.gen_consts_cpp(ID, ['plugins/usbpro/BaseUsbProWidget.h', 'plugins/usbpro/BaseRobeWidget.h',
-                                 'plugins/openpixelcontrol/OPCConstants.h'],
-                            ents, os.path.join(v.VERIF, 'props', ID, 'coq', 'Gen.v'))
+    ents += [('ACN_PDU_BLOCK_SIZE', 'ola::acn::IncomingStreamTransport::PDU_BLOCK_SIZE'),
+             ('ACN_TWO_BYTES', 'ola::acn::IncomingStreamTransport::TWO_BYTES'),
+             ('ACN_THREE_BYTES', 'ola::acn::IncomingStreamTransport::THREE_BYTES'),
+             ('ACN_LFLAG_MASK', 'ola::acn::BaseInflator::LFLAG_MASK'),
+             ('ACN_LENGTH_MASK', 'ola::acn::BaseInflator::LENGTH_MASK')]
+    import re
+    tmp = os.path.join(v.BUILD, ID, 'Gen.headers.v')
+    os.makedirs(os.path.dirname(tmp), exist_ok=True)
+    if os.path.exists(tmp):
+        os.unlink(tmp)
+    err = v.gen_consts_cpp(ID, ['plugins/usbpro/BaseUsbProWidget.h', 'plugins/usbpro/BaseRobeWidget.h',
+                                'plugins/openpixelcontrol/OPCConstants.h', 'libs/acn/TCPTransport.h',
+                                'libs/acn/BaseInflator.h'], ents, tmp)
+    if err:
+        return err
+    # ACN_HEADER[] and INITIAL_SIZE are defined in TCPTransport.cpp only (internal linkage / out-of-class
+    # definition): taken from the source text of the working tree.
+    src = open(v.repo_path('libs/acn/TCPTransport.cpp')).read()
+    src_nc = re.sub(r'//[^\n]*', '', src)
+    m = re.search(r'const\s+uint8_t\s+ACN_HEADER\s*\[\s*\]\s*=\s*\{([^}]*)\}', src_nc)
+    m2 = re.search(r'IncomingStreamTransport::INITIAL_SIZE\s*=\s*(\d+)\s*;', src_nc)
+    if not m or not m2:
+        return 'ACN_HEADER / INITIAL_SIZE not found in libs/acn/TCPTransport.cpp'
+    hdr = [int(x.strip(), 0) for x in m.group(1).split(',') if x.strip()]
+    lst = 'nil'
+    for x in reversed(hdr):
+        lst = '(cons %d %s)' % (x, lst)
+    extra = ('From Coq Require Import List.\n'
+             'Definition ACN_HEADER : list N := %s.\nDefinition ACN_HEADER_SIZE : N := %d.\n'
+             'Definition ACN_INITIAL_SIZE : N := %d.\n' % (lst, len(hdr), int(m2.group(1))))
+    new = open(tmp).read() + extra
+    out = os.path.join(v.VERIF, 'props', ID, 'coq', 'Gen.v')
+    if not os.path.exists(out) or open(out).read() != new:
+        with open(out, 'w') as f:
+            f.write(new)
+    return None
 
 SPEC_KEYS = ['ret', 'n', 'buf', 'agree'] + ['m%d' % i for i in range(16)]
 PROC_TIMEOUT = 1500
@@ -181,11 +214,11 @@ def part_from_cuts(total, cuts):
     pts = [0] + cuts + [total]
     return ','.join(str(pts[i + 1] - pts[i]) for i in range(len(pts) - 1))
 
-def partitions(rng, total, marks, big):
+def partitions(rng, total, marks, big, coarse):
     if total == 0:
         return ['0', '0,0']
-    if total > 6000:
-        # long streams (the model is quadratic in the buffered length): coarse partitions only
+    if coarse:
+        # long OPC streams (the OPC model is quadratic in the buffered length): coarse partitions only
         ps = [str(total)]
         for step in (rng.choice([509, 997]), rng.choice([4093, 516, 517]), 65536):
             ps.append(part_from_cuts(total, range(step, total, max(step, total // 150))))
@@ -243,7 +276,10 @@ def gen_cases(rng, tier):
             if proto != 'opc' and len(st) > 50000:
                 st = st[:50000]
             cap = rng.choice([0, 0, 0, 0, 1, 2, 3, 7, 100])
-            yield '%s %d %s %s' % (proto, cap, hx(st), '/'.join(partitions(rng, len(st), marks, big or len(st) > 6000)))
+            coarse = len(st) > 6000 and (proto == 'opc' or quick)
+            # thorough: long usbpro/robe/acn streams are also replayed one byte at a time
+            strided = coarse or (big and (quick or proto == 'opc'))
+            yield '%s %d %s %s' % (proto, cap, hx(st), '/'.join(partitions(rng, len(st), marks, strided, coarse)))
     # syscall-level splitting of one Receive call
     for size in (0, 1, 2, 3, 6):
         for sc in ('-', '1', '1,1', '1,1,1', '2,2,2', '1,2,3', 'I', 'I,1', '1,I,1', 'A', 'E', '0', '1,0,1', '1,A,1',
@@ -280,21 +316,24 @@ TRUSTED = ['modelled rather than verified: ConnectedDescriptor::Receive (POSIX b
            'reference framers ref_usb/ref_robe/ref_opc/ref_acn are hand-written from the wire formats (their '
            'resynchronisation rules are stated in Model.v)',
            'read() interposed with ld --wrap in the harness only']
-LEVEL_TEXT = ('Coq theorems over executable models of the code: ConnectedDescriptor::Receive (for every script of '
-              'read() results: no store outside the buffer, count = sum of successful reads, buffer prefix = their '
-              'concatenation) and three of the five framers named by the property - Enttec USB Pro, Robe (both '
-              'checksums) and the Open Pixel Control server: for every byte stream and EVERY partition into reads the '
-              'delivered message list equals a reference framer written from the wire format, no store outside the '
-              'receive buffer, the read loop terminates (c10_{usbpro,robe,opc}_chunk_free / _bounds). PARTIAL: the ACN '
-              'TCP transport (IncomingStreamTransport: preamble, block length, 2/3-byte PDU lengths, buffer growth) is '
-              'modelled with a reference framer and compared with the C++ and with the reference framer on every '
-              'generated stream under 6 partitions, but c10_acn_chunk_free / c10_acn_bounds are NOT proved in Coq. The '
-              'RPC channel framing is not part of this check: its theorem is c09_dispatch in props/C09.')
+LEVEL_TEXT = ('Coq theorems over executable models of the code: ConnectedDescriptor::Receive (any script of read() '
+              'results: no store outside the buffer, count = sum of successful reads, buffer prefix = their '
+              'concatenation); Enttec USB Pro, Robe and the Open Pixel Control server: for every byte stream and EVERY '
+              'partition into reads the delivered message list equals a reference framer written from the wire format, '
+              'no store outside the receive buffer, the read loop terminates (c10_{usbpro,robe,opc}_chunk_free/_bounds); '
+              'for these and for ACN any interleaving of data arrivals and callback invocations of a level-triggered '
+              'poller delivers the same (c10_schedule_*). PARTIAL: for the ACN TCP transport (IncomingStreamTransport) '
+              'it is proved that every partition is hazard-free (buffer growth never stores outside the allocation, '
+              'Receive() cannot spin) and delivers the same PDU sequence / reaches the same state as one-byte-at-a-time '
+              'and all-at-once delivery (c10_acn_chunk_free_partial, c10_acn_bounds); that this sequence equals the '
+              'reference framer ref_acn (in particular where a stream is invalidated) is NOT proved, only compared on '
+              'every generated case. The RPC channel framing is not part of this check (theorem c09_dispatch in props/C09).')
 LEVEL_NOTE = ('Trusted: Coq kernel, extraction (ExtrOcamlBasic), OCaml/C++ glue, the ld --wrap=read interposer, generator '
               'coverage of the correspondence (model = code is validated by differential testing on pipes/socket pairs '
-              'under ASan/UBSan, not proved); assumes in-order byte delivery and level-triggered readiness; receive '
-              'buffers are modelled as the list of bytes stored so far with an explicit capacity check per store; the '
-              'ACN inflator is a recording stub that consumes every PDU whole; the ACN packet identifier and '
-              'INITIAL_SIZE=500 are literals in the model (not regenerated).')
+              'under ASan/UBSan, not proved); assumes in-order byte delivery; receive buffers are modelled as the list '
+              'of bytes stored so far (ACN: in reverse order with a length counter) with an explicit capacity check per '
+              'store; the ACN inflator is a recording stub that consumes every PDU whole; ACN_HEADER and INITIAL_SIZE '
+              'are taken from the text of libs/acn/TCPTransport.cpp (they are not visible in a header), the other '
+              'constants from the compiled headers.')
 TECHNIQUE = 'Coq proof on hand-written executable model + extracted-model/implementation differential correspondence'
 DESIGN_REF = 'DESIGN.md §4 C10'
